@@ -32,7 +32,10 @@ def _classify_uses(b, local, depth=0, seen=None):
         elif isinstance(how, tuple) and how[0] == "callarg":
             f = fn_of(b.blocks[bi]["term"]) or {}
             d = f.get("def", "")
-            if d in DISCARDERS:
+            if d == "std::result::Result::<T, E>::unwrap_or_else" and _closure_reads_error(b, f):
+                # the error is handed to a handler that looks at it (e.g. reports it and exits)
+                out.add("consumed")
+            elif d in DISCARDERS:
                 out.add("discard:" + DISCARDERS[d])
             else:
                 out.add("consumed")
@@ -60,6 +63,54 @@ def _classify_uses(b, local, depth=0, seen=None):
     return out
 
 
+def _closure_reads_error(b, f):
+    cls = [b.crate.by_id.get(c) for c in f.get("closures", [])]
+    cls = [c for c in cls if c is not None]
+    if len(cls) != 1 or cls[0].nargs < 2:
+        return False
+    return any(how != "drop" for _, _, how in uses_of_local(cls[0], 2))
+
+
+IO_CAPABLE = ("std::io::Error", "error::Error", "xt::Error", "serde_json::Error", "rmp_serde::decode::Error", "rmp_serde::encode::Error", "serde_yaml::Error", "transcode::stream::Error<")
+
+
+def _err_type_of(ty):
+    import re
+
+    m = re.match(r"std::result::Result<(.*), ([^,]+(?:<.*>)?)>$", ty)
+    return m.group(2).strip() if m else ""
+
+
+def _err_payload_used(b, local):
+    """Some statement or call reads `(local as Err).0` (moves it, borrows it, inspects it)."""
+
+    def mentions(p):
+        return p["l"] == local and any(e["k"] == "downcast" and e["variant"] == "Err" for e in p["pr"])
+
+    for bi in b.reach():
+        blk = b.blocks[bi]
+        for s in blk["stmts"]:
+            if s["k"] != "assign":
+                continue
+            rv = s["rv"]
+            ps = []
+            if "p" in rv:
+                ps.append(rv["p"])
+            for o in ("op", "a", "b"):
+                if o in rv and isinstance(rv[o], dict) and rv[o].get("k") in ("copy", "move"):
+                    ps.append(rv[o]["p"])
+            if rv["k"] == "aggregate":
+                ps += [o["p"] for o in rv["ops"] if o.get("k") in ("copy", "move")]
+            if any(mentions(p) for p in ps):
+                return True
+        t = blk["term"]
+        if t["k"] == "call" and any(a.get("k") in ("copy", "move") and mentions(a["p"]) for a in t["args"]):
+            return True
+        if t["k"] == "switch" and t["discr"].get("k") in ("copy", "move") and mentions(t["discr"]["p"]):
+            return True
+    return False
+
+
 def _reviewed():
     return json.load(open(os.path.join(VERIF, "tables", "discards.json")))["entries"]
 
@@ -69,7 +120,7 @@ def r12_1(ctx):
     reviewed = _reviewed()
     budget = {}
     for e in reviewed:
-        budget[(e["crate"], e["function"], e["callee"], e["form"])] = budget.get((e["crate"], e["function"], e["callee"], e["form"]), 0) + e.get("count", 1)
+        budget[(e["crate"], e["file"], e["callee"], e["form"])] = budget.get((e["crate"], e["file"], e["callee"], e["form"]), 0) + e.get("count", 1)
     used = {}
     seen_ok = {}
     n = 0
@@ -91,17 +142,22 @@ def r12_1(ctx):
                 n += 1
                 cls = _classify_uses(b, d["l"])
                 good = cls & {"consumed", "inspected", "returned"}
+                ety = _err_type_of(ty)
+                if good == {"inspected"} and any(ety.startswith(x) for x in IO_CAPABLE) and not _err_payload_used(b, d["l"]):
+                    # matched on, but the Err arm never looks at the error: an I/O failure is silently treated like another outcome
+                    good = set()
+                    cls = {"matched-but-error-dropped"}
                 if good:
                     k = (crate.kind, b.id, f.get("name", "?"))
                     seen_ok[k] = seen_ok.get(k, 0) + 1
                     ctx.ob(f"handled:{crate.kind}:{b.id}:{f.get('name', '?')}:{seen_ok[k] - 1}", True, site(b, bb), "result is " + ",".join(sorted(good)))
                     continue
                 form = ",".join(sorted(cls)) or "unused"
-                key = (crate.kind, b.id, f.get("name", "?"), form)
+                key = (crate.kind, b.file, f.get("name", "?"), form)
                 used[key] = used.get(key, 0) + 1
                 if used[key] <= budget.get(key, 0):
                     ctx.ob(f"reviewed:{crate.kind}:{b.name}:{f.get('name')}:{form}:{used[key]}", True, site(b, bb),
-                           "reviewed exception: " + [e["reason"] for e in reviewed if (e["crate"], e["function"], e["callee"], e["form"]) == key][0], trivial=True)
+                           "reviewed exception: " + [e["reason"] for e in reviewed if (e["crate"], e["file"], e["callee"], e["form"]) == key][0], trivial=True)
                 else:
                     ctx.ob(f"discarded:{crate.kind}:{b.name}:{f.get('name')}:{form}", False, site(b, bb),
                            f"the Result of `{f.get('def')}` is {form}: an I/O or parse failure here would go unnoticed")
@@ -193,11 +249,23 @@ def r12_2(ctx):
         ok = any(n in ("unwrap_or_else", "unwrap_or", "or_else", "ok_or", "ok_or_else", "map_or_else") for n in nxt) or bool(__import__("r_bin").result_switches(b, res))
         ctx.ob(f"next_event:stashed-error-first:{b.name}", ok, site(b, bb), f"stashed error is preferred; fallback only when none ({nxt})" if ok else "the stashed reader error is taken but not returned")
     # the chunker wraps, not replaces: io::Error::new(kind, err) with err as payload
-    chunk_next = [b for b in lib.bodies if b.raw.get("impl_trait") == "std::iter::Iterator" and "Chunker" in b.raw.get("impl_self_ty", "")]
-    for cn in chunk_next:
+    ch = common.chunker(ctx.facts)
+    nw = 0
+    for cn in ch["bodies"]:
+        if cn.file != ch["loop"].file:
+            continue
         for bb, t in cn.calls():
             f = fn_of(t) or {}
             if f.get("def", "").startswith("std::io::Error::new"):
+                nw += 1
                 tr = trace(cn, t["args"][1])
                 ok = bool(tr.origin and tr.origin[0] == "call" and any(st[0] == "downcast" and st[1] == "Err" for st in tr.steps))
+                if not ok and cn.raw["def_kind"] == "Closure" and tr.origin and tr.origin[0] == "arg" and tr.origin[1] == 2 and all(st[0] == "use" for st in tr.steps):
+                    # `result.map_err(|err| io::Error::new(kind, err))`: the closure's argument is the Err payload
+                    for pb in lib.bodies:
+                        for pbb, pt in pb.calls():
+                            pf = fn_of(pt) or {}
+                            if cn.id in pf.get("closures", []) and pf.get("def") == "std::result::Result::<T, E>::map_err":
+                                ok = True
                 ctx.ob("chunker:wraps-parser-error", ok, site(cn, bb), "the parser/reader error is the payload of the InvalidData error (Display shows it)" if ok else "the chunker replaces the underlying error")
+    ctx.ob("chunker:wrap-sites", nw >= 1, site(ch["loop"]), f"{nw} io::Error::new site(s) in the chunker")
